@@ -517,6 +517,25 @@ fn c09_rle16_bg_bg_first_line_end() {
     forget(r); forget(r2);
 }
 
+/// a DITHERED (bicolour) run whose colour pair straddles a scanline end on an odd-width image: the pair continues on the next scanline
+#[kani::proof]
+#[kani::unwind(14)]
+fn c09_rle16_pair_run_odd_width() {
+    let a: u16 = kani::any();
+    let b: u16 = kani::any();
+    let c: u16 = kani::any();
+    // DITHERED_RUN of 3 pairs (6 pixels) + COLOR_RUN of 3 on a 3x3 image
+    let input = [0xE3u8, a as u8, (a >> 8) as u8, b as u8, (b >> 8) as u8, 0x63, c as u8, (c >> 8) as u8];
+    let mut out = [0u16; 9];
+    let r = rle_16_decompress(&input, 3, 3, &mut out);
+    assert!(r.is_ok(), "decodes");
+    // scanlines bottom-up: out[6..9], out[3..6], out[0..3]
+    assert!(out[6] == a && out[7] == b && out[8] == a, "first scanline: a b a");
+    assert!(out[3] == b && out[4] == a && out[5] == b, "second scanline continues the pair: b a b");
+    assert!(out[0] == c && out[1] == c && out[2] == c, "third scanline: the colour run");
+    forget(r);
+}
+
 /// extended run counts at their largest byte value: FGBG_IMAGE (0x40) and SET_FG_FGBG_IMAGE (0xD0) with count byte 0xFF (256 pixels),
 /// regular orders with 0xFF (+32 / +16): on a 2x2 image all are refused after four pixels at the latest - never a panic
 #[kani::proof]
